@@ -903,6 +903,36 @@ fn respond(line: &str) -> R {
             }
             Ok(join(vec![blocks_ser, grouping, node("Expansion", "", generated)]))
         }
+        // the helper impls the macro generates, as impl terms (one list per family), next to
+        // the canonical blocks and the grouping they were generated from
+        ["genimpls", src] => {
+            let (_, blocks) = parse_blocks(src)?;
+            let canonical: Vec<_> = blocks
+                .into_iter()
+                .map(|mut block| {
+                    crate::param::resolve_non_predicate_params(&mut block);
+                    block
+                })
+                .collect();
+            let groups = parse::<ImplGroups>(src)?;
+            let blocks_ser = node(
+                "Blocks",
+                "",
+                canonical.iter().map(ser_item_impl).collect::<Result<Vec<_>, _>>()?,
+            );
+            let grouping = ser_grouping(&groups, &canonical)?;
+
+            let mut families = Vec::new();
+            for (idx, group) in groups.impl_groups.into_values().enumerate() {
+                let impls = disjoint::generate(idx, group);
+                families.push(node(
+                    "Family",
+                    "",
+                    impls.iter().map(ser_item_impl).collect::<Result<Vec<_>, _>>()?,
+                ));
+            }
+            Ok(join(vec![blocks_ser, grouping, node("GenImpls", "", families)]))
+        }
         // serialize a world (ground impls of dispatch traits) and ground queries
         ["world", world, probes] => {
             let file = parse::<syn::File>(world)?;
